@@ -10,7 +10,8 @@ the bracket of every skeleton that uses it into one that leaks, and the `decide`
 
 Locations: context variables by name; `parser.print_config`, `parser.args` (application parser), `sub.print_config`,
 `sub.args` (a sub-command parser), `os.cwd`, `argparse.Namespace`; `action.default` (rewritten by the help formatter
-and put back by straight-line code, NOT in a `finally`: it is not among the restored locations, see Props/C09).
+for the substitution and put back — in a `finally` since cb986b8; whether it is, is the regenerated fact
+`Gen.PState.helpDefaultFinally`).
 -/
 namespace Jap.PState.Ctx
 
@@ -40,7 +41,7 @@ def unresetVars : List String := ["parse_kwargs", "subclass_arg_parser", "dump_k
     attributes that an operation must leave as it found them -/
 def restoredLocs : List String :=
   ((Jap.Gen.PState.ctxSets.map (·.1)).eraseDups.filter fun x => !unresetVars.contains x && x != "current_mro") ++
-    ["os.cwd", "argparse.Namespace", "parser.print_config", "sub.print_config"]
+    ["os.cwd", "argparse.Namespace", "parser.print_config", "sub.print_config", "action.default"]
 
 /-! ### skeletons -/
 
@@ -123,7 +124,9 @@ def allToks : List Tok := [.typed, .nested, .printConfig 5, .cfgFile, .help, .cl
 def formatHelp (n p : Nat) : Prog :=
   seqs [.tryCatch (getDefaults n p) .skip,
         cm "parser_context" "parent_parser" p (cm "parser_context" "defaults_cache" 1
-          (seqs [.read "defaults_cache", .bracket false "action.default" 7 (.read "action.default")]))]
+          (seqs [.read "defaults_cache",
+                 -- _expand_help: action.default := the default-config value, help string (extra_help may raise), put back
+                 .bracket Jap.Gen.PState.helpDefaultFinally "action.default" 7 (seqs [.read "action.default", adapt])]))]
 
 def tokProg (n p : Nat) (args : String) : Tok → Prog
   | .typed => seqs [.read "subclass_arg_parser", adapt]
@@ -188,8 +191,8 @@ def instantiate (p : Nat) : Prog :=
     sub-command), all keyword combinations of dump -/
 def publicOps (p : Nat) : List Prog :=
   let argvs : List (List Tok) := [[]] ++ allToks.map (fun t => [t]) ++ (allToks.flatMap fun a => allToks.map fun b => [a, b])
-  (argvs.map fun a => parseArgs 1 p 1 a none) ++ (argvs.map fun a => parseArgs 1 p 2 [.typed] (some a)) ++
-    [parseOther 1 p, getDefaults 4 p, validate p, instantiate p, formatHelp 4 p,
+  (argvs.map fun a => parseArgs 4 p 1 a none) ++ (argvs.map fun a => parseArgs 4 p 2 [.typed] (some a)) ++
+    [parseOther 4 p, getDefaults 4 p, validate p, instantiate p, formatHelp 4 p,
      dump 5 p 0 false, dump 5 p 1 true, dump 5 p 0 true]
 
 end Jap.PState.Ctx
